@@ -36,8 +36,9 @@ func (c c02) Generate(seed uint64, tier string, idx int) *core.Plan {
 	// one token type per run (keeps runs short and diverse); two issuers of it
 	t := []int{1, 2, 3, 5}[idx%4]
 	p.Cfg["type"] = int64(t)
+	base := int64(r.Intn(1 << 20))
 	for i := 0; i < 2; i++ {
-		key := int64(r.Intn(1 << 20))
+		key := 2*base + int64(i) // the two issuers have distinct keys by construction
 		if t == 2 || t == 3 {
 			key = int64((idx/4 + i*3) % 8)
 		}
